@@ -1145,6 +1145,9 @@ func main() {
 			concurrentSessionCreation(run, r*10000+k)
 			concurrentDeletes(run, r*10000+k)
 		}
+		for k := 0; k < run.N(60, 600); k++ {
+			independentRegistries(run, r*10000+k)
+		}
 	}
 	runtime.GOMAXPROCS(16)
 
